@@ -203,5 +203,16 @@ func (r *GeneratorInterceptor) BindRTCPReader(reader interceptor.RTCPReader) int
 
 // ForcePLI sends a PLI request to the tracks matching the provided SSRCs.
 func (r *GeneratorInterceptor) ForcePLI(ssrc ...uint32) {
-	r.immediatePLINeeded <- ssrc
+	// never block the caller: when a request is already pending (the loop is not
+	// running yet, is busy, or has been closed) take it back and merge the two
+	for {
+		select {
+		case r.immediatePLINeeded <- ssrc:
+			return
+		case <-r.close:
+			return
+		case pending := <-r.immediatePLINeeded:
+			ssrc = append(pending, ssrc...)
+		}
+	}
 }
